@@ -415,7 +415,7 @@ func (g *Gen) c12OpFn(name, typ string, val func(goTok string) string) {
 // ---------------------------------------------------------------------------------------------
 
 func genC12(g *Gen) error {
-	g.Imports = []string{"OG.C12.Base"}
+	g.Imports = []string{"OG.C12.Base", "OG.C12.WireBase"}
 	g.Header(c12dir+"sql.y", c12dir+"token.go", c12dir+"ast.go", c12dir+"parser.go", c12dir+"scanner.go", c12dir+"yyParser.go",
 		"lib/util/lifted/influx/query/processor_codec.go", "engine/executor/logic_plan_codec.go", "engine/executor/chunk_codec.gen.go")
 	g.GenNS()
@@ -758,6 +758,9 @@ func genC12(g *Gen) error {
 	g.P("]\n")
 
 	if err := genC12Codecs(g); err != nil {
+		return err
+	}
+	if err := genC12Wire(g); err != nil {
 		return err
 	}
 	g.Footer()
